@@ -68,7 +68,8 @@ SKELETONS_QUICK = ['single_FC', 'single_ADD_CONST', 'single_RESHAPE',
                    'chain_fc_reshape_softmax', 'tensor_2_consumers',
                    'intermediate_is_output', 'tanh_concat_same',
                    'const_shared_by_two_ops', 'two_subgraphs_independent',
-                   'two_subgraphs_shared_buffer']
+                   'two_subgraphs_shared_buffer',
+                   'two_subgraphs_signatures_reordered']
 
 
 def signatures(model):
@@ -395,7 +396,10 @@ def cal_recipes(tier):
 
 def case_list(tier):
   fam = dict(P.skeleton_family(tier))
-  names = SKELETONS_QUICK if tier == 'quick' else list(fam)
+  # (a model with one tensor name in two subgraphs is refused by quantize()
+  # by design; its name-keyed calibration result is not meaningful)
+  names = SKELETONS_QUICK if tier == 'quick' else [
+      k for k in fam if k != 'two_subgraphs_same_constant_name']
   if tier == 'thorough':
     dags = P.skeleton_family('thorough_dags')
     extra = list(dags)[:80]
